@@ -15,6 +15,7 @@ import (
 // e2eCase is one end-to-end execution, fully described (so that it can be replayed).
 type e2eCase struct {
 	ID    int       `json:"id"`
+	Tag   string    `json:"tag,omitempty"`
 	Seed  int64     `json:"seed"`
 	Opts  e2eOpts   `json:"opts"`
 	Nodes []e2eNode `json:"nodes"`
@@ -63,6 +64,10 @@ type e2ePoint struct {
 	Kind      string `json:"kind"`
 	ReleaseMs int    `json:"release_ms"`
 	ResumeMs  int    `json:"resume_ms,omitempty"` // Kind pause: the client continues after this long
+	// HoldMs > 0: the point stands for an operation outside the program (a destination write that does not come back):
+	// the goroutine stays held until the transfer is over (at most this long) and the held time counts, because a
+	// stop has to end the transfer without waiting for that operation
+	HoldMs int `json:"hold_ms,omitempty"`
 }
 
 type e2eStop struct {
